@@ -707,7 +707,7 @@ func enclosingFuncBody(c *Ctx, n ast.Node) *ast.BlockStmt {
 
 // unsafeLiteralExceptions: calls that may pass a literal instead of the flag.
 var unsafeLiteralExceptions = map[string]string{
-	"cty/convert.dynamicReplace→cty/convert.unify":       "computes a type only; the conversions are discarded (second result must be _)",
+	"cty/convert.dynamicReplace→cty/convert.unify":              "computes a type only; the conversions are discarded (second result must be _)",
 	"cty/convert.GetConversion→cty/convert.getConversion":       "public entry point fixing safe mode",
 	"cty/convert.GetConversionUnsafe→cty/convert.getConversion": "public entry point fixing unsafe mode",
 	"cty/convert.Unify→cty/convert.unify":                       "public entry point fixing safe mode",
